@@ -30,6 +30,11 @@ type c16Send struct {
 	Compress int // 0 = nil options (default: compress), 1 = Compress true, 2 = Compress false
 }
 
+type c16AE struct {
+	Set bool
+	AE  string
+}
+
 type c16Case struct {
 	Rev       int
 	B64       bool
@@ -38,6 +43,9 @@ type c16Case struct {
 	Threshold int // -1: compression option left at its default (1024)
 	AE        string
 	AESet     bool
+	// PollAE: the Accept-Encoding of the poll that fetches batch i (nil: every request carries the session's
+	// first one): a header is a property of the request, not of the session (a proxy may rewrite it per request)
+	PollAE    []c16AE
 	Batches   [][]c16Send
 	CloseLast bool // end with Close(false): exercises the transport's own close packet
 	// Pre: response headers a host application's handler has set on the ResponseWriter before it delegates to
@@ -54,10 +62,12 @@ func (c c16Case) String() string {
 		}
 		bs = append(bs, "["+strings.Join(ps, " ")+"]")
 	}
-	return fmt.Sprintf("{rev%d b64=%v jsonp=%v j=%q threshold=%d accept-encoding=%q(set=%v) batches=%s close=%v preset=%v}", c.Rev, c.B64, c.JSONP, c.J, c.Threshold, c.AE, c.AESet, strings.Join(bs, " "), c.CloseLast, c.Pre)
+	return fmt.Sprintf("{rev%d b64=%v jsonp=%v j=%q threshold=%d accept-encoding=%q(set=%v) per-poll=%+v batches=%s close=%v preset=%v}", c.Rev, c.B64, c.JSONP, c.J, c.Threshold, c.AE, c.AESet, c.PollAE, strings.Join(bs, " "), c.CloseLast, c.Pre)
 }
 
-var c16AEs = []string{"gzip", "deflate", "br", "zstd", "gzip, deflate, br", "deflate, gzip;q=0.5", "br;q=1.0, zstd;q=0.8", "identity", "*", "compress", "GZIP", " gzip ", "gzip,deflate", "x-gzip", "xgzip", "abbr", "notdeflated", "zstdx, brotli", "bri, dez", "", "gzip;q=0", "gz ip"}
+var c16AEs = []string{"gzip", "deflate", "br", "zstd", "gzip, deflate, br", "deflate, gzip;q=0.5", "br;q=1.0, zstd;q=0.8", "identity", "*", "compress", "GZIP", " gzip ", "gzip,deflate", "x-gzip", "xgzip", "abbr", "notdeflated", "zstdx, brotli", "bri, dez", "", "gzip;q=0", "gz ip",
+	// parameters in every odd shape a client may send: bare names, empty values, several, stray separators
+	"gzip;q", "gzip;", "gzip;q=", "gzip;q=abc", "gzip;foo=bar", "gzip;q=1;x", "br;q;level=3, gzip;q", ";q=1", ",", ";;", ",,gzip;;q==1,", "gzip;q=0.0001", "deflate;Q=0, br;q", "gzip;q=1.0000000000000000000000001", "gzip; q = 0.5 ; x"}
 
 var c16Texts = []string{"hello", "", "quote\"d", "back\\slash", "new\nline", "cr\rlf\n", " sep ", "</script><script>alert(1)</script>", "<!-- x -->", "a&b<c>d", "ünï😀", "tab\t", "\x00\x01\x1f", "');alert(1);//", "]]>", "\\u2028", "%22"}
 
@@ -72,19 +82,29 @@ func genC16(rt *rapid.T, knownDeflate, knownSubstr, knownV3BinText bool, col *Co
 		c.J = rapid.OneOf(rapid.SampledFrom([]string{"0", "7", "123", "", "abc", "1a2b", ");alert(1)//", "0]('x');//", "-1", "1e3", "٣", " 4 ", "%31", "９"}), rapid.StringMatching(`[ -~]{0,12}`)).Draw(rt, "j")
 	}
 	c.Threshold = rapid.SampledFrom([]int{-1, 0, 1, 100, 1024, 1 << 30}).Draw(rt, "threshold")
-	c.AESet = rapid.IntRange(0, 5).Draw(rt, "aeSet") > 0
-	if c.AESet {
-		c.AE = rapid.SampledFrom(c16AEs).Draw(rt, "ae")
-		if knownDeflate && aeTokens(c.AE)["deflate"] && !aeTokens(c.AE)["gzip"] {
-			col.Exclude("Accept-Encoding selecting deflate (known finding " + sigDeflateRaw + ")")
-			c.AE = "gzip"
+	drawAE := func(l string) c16AE {
+		a := c16AE{Set: rapid.IntRange(0, 5).Draw(rt, l+"Set") > 0}
+		if a.Set {
+			a.AE = rapid.SampledFrom(c16AEs).Draw(rt, l)
+			if knownDeflate && aeTokens(a.AE)["deflate"] && !aeTokens(a.AE)["gzip"] {
+				col.Exclude("Accept-Encoding selecting deflate (known finding " + sigDeflateRaw + ")")
+				a.AE = "gzip"
+			}
+			if knownSubstr && codingBySubstring(a.AE) != codingByToken(a.AE) {
+				col.Exclude("Accept-Encoding whose substring match differs from its tokens (known finding " + sigCodingSubstr + ")")
+				a.AE = "gzip"
+			}
 		}
-		if knownSubstr && codingBySubstring(c.AE) != codingByToken(c.AE) {
-			col.Exclude("Accept-Encoding whose substring match differs from its tokens (known finding " + sigCodingSubstr + ")")
-			c.AE = "gzip"
+		return a
+	}
+	first := drawAE("ae")
+	c.AESet, c.AE = first.Set, first.AE
+	nb := rapid.IntRange(1, 4).Draw(rt, "batches")
+	if rapid.IntRange(0, 2).Draw(rt, "aePerPoll") == 0 {
+		for i := 0; i < nb; i++ {
+			c.PollAE = append(c.PollAE, drawAE(fmt.Sprintf("ae%d", i)))
 		}
 	}
-	nb := rapid.IntRange(1, 4).Draw(rt, "batches")
 	for i := 0; i < nb; i++ {
 		n := rapid.IntRange(1, 4).Draw(rt, "batchLen")
 		var b []c16Send
@@ -345,6 +365,18 @@ func runC16(c c16Case) (fail string, stats map[string]bool) {
 			w.AppSend(sr, s.P, opts, false, 0)
 			want = append(want, s.P)
 		}
+		cc := c
+		if bi < len(c.PollAE) {
+			// this poll carries its own Accept-Encoding
+			cc.AESet, cc.AE = c.PollAE[bi].Set, c.PollAE[bi].AE
+			hdr.Del("Accept-Encoding")
+			if cc.AESet {
+				hdr.Set("Accept-Encoding", cc.AE)
+			}
+			if cc.AESet != c.AESet || cc.AE != c.AE {
+				stats["accept-encoding-differs-from-the-handshake's"] = true
+			}
+		}
 		last := bi == len(c.Batches)-1
 		if last && c.CloseLast {
 			sr.Sock.Close(false)
@@ -374,11 +406,11 @@ func runC16(c c16Case) (fail string, stats map[string]bool) {
 		if len(b) > 1 {
 			stats["multi-packet-batch"] = true
 		}
-		f := checkPollResponse(c, pc, snap, want, asked, stats)
+		f := checkPollResponse(cc, pc, snap, want, asked, stats)
 		if f != "" && last && c.CloseLast {
 			// the close packet may ride on this response or be delivered by the next poll,
 			// depending on whether the writer goroutine or the closing goroutine runs first
-			if f2 := checkPollResponse(c, pc, snap, want[:len(want)-1], asked, stats); f2 == "" {
+			if f2 := checkPollResponse(cc, pc, snap, want[:len(want)-1], asked, stats); f2 == "" {
 				ex2 := pc.StartPoll()
 				Settle()
 				snap2 := ex2.Snap()
@@ -386,9 +418,9 @@ func runC16(c c16Case) (fail string, stats map[string]bool) {
 					return fmt.Sprintf("batch %d: close packet neither in the response nor delivered by the next poll", bi), stats
 				}
 				// the transport's own packets: a noop that carries the buffered close
-				f = checkPollResponse(c, pc, snap2, []Pkt{ctl(tNoop), ctl(tClose)}, false, stats)
+				f = checkPollResponse(cc, pc, snap2, []Pkt{ctl(tNoop), ctl(tClose)}, false, stats)
 				if f != "" {
-					f = checkPollResponse(c, pc, snap2, []Pkt{ctl(tClose)}, false, stats)
+					f = checkPollResponse(cc, pc, snap2, []Pkt{ctl(tClose)}, false, stats)
 				}
 				stats["close-packet-on-next-poll"] = true
 			}
@@ -452,7 +484,7 @@ func TestC16PollResponses(t *testing.T) {
 			rt.Fatalf("%v: %s", clipStr(c.String(), 800), clipStr(res.Leak, 1500))
 		}
 	})
-	req := []string{"headers-preset-by-the-host-application", "compressed", "coding.gzip", "coding.br", "coding.zstd", "jsonp", "jsonp-escape-needed", "v3-binary-body", "multi-packet-batch", "close-packet", "transport-own-packet"}
+	req := []string{"headers-preset-by-the-host-application", "compressed", "coding.gzip", "coding.br", "coding.zstd", "jsonp", "jsonp-escape-needed", "v3-binary-body", "multi-packet-batch", "close-packet", "transport-own-packet", "accept-encoding-differs-from-the-handshake's"}
 	if !knownDeflate {
 		req = append(req, "coding.deflate")
 	}
